@@ -16,7 +16,7 @@ from ..report import Finding, RuleResult
 from ..symexp import paths_of, is_component
 from ..taint import TaintDomain
 from . import register, A_NET, T_OPS, A_API
-from .flow_rules import base_terms_rule, ctx_pair_rule, _kwarg
+from .flow_rules import base_terms_rule, _kwarg
 from .layout import layout_rule
 
 
@@ -328,14 +328,14 @@ def dist_terms_rule(ctx):
 
 register(
     "C05",
-    [res_rule, null_rule, dist_terms_rule, base_terms_rule, ctx_pair_rule, layout_rule],
+    [res_rule, null_rule, dist_terms_rule, base_terms_rule, layout_rule],
     "Interface-level necessary conditions for every density-returning object. RES: abstract interpretation of the public "
     "log_prob / sample / sample_and_log_prob / mean of every Distribution subclass (and the MADE mixture): every self-attribute "
     "read resolves, and no entry point returns a function object. NULL-1: values originating from parameters whose default is "
     "None are tracked interprocedurally; a dereference (.shape, subscript, attribute) of such a value that may still be None -- no "
     "dominating `is None` test, no callee that raises on None before use -- is reported with the call path. DIST-TERMS / "
     "BASE-TERMS: signed-sum term accounting of the Bernoulli, Gaussian and mixture log-densities, their reduction axes, and "
-    "agreement of parameter roles between log_prob, sample and mean. CTX-PAIR: row/context alignment in samplers. Normalising "
+    "agreement of parameter roles between log_prob, sample and mean. LEAD-LAYOUT: row/context alignment in samplers (abstract leading-axis layouts). Normalising "
     "constants, sampling laws and the truncation normaliser of LotkaVolterraOscillating are integrals/statistics and are NOT "
     "decided (a real defect in that normaliser was observed by reading and is recorded in DESIGN.md as out of reach).",
     [A_NET, A_API, T_OPS],
